@@ -1,4 +1,5 @@
 import Robotools.Props.C18
+import Robotools.Proofs.GenFns
 #print axioms Robotools.C18.perm
 #print axioms Robotools.C18.single_column
 #print axioms Robotools.C18.groups_nonempty
@@ -8,3 +9,5 @@ import Robotools.Props.C18
 #print axioms Robotools.C18.auto_rule
 #print axioms Robotools.C18.explicit_respected
 #print axioms Robotools.C18.invalid_mode_rejected
+#print axioms Robotools.GenFns.all_translated
+#print axioms Robotools.GenFns.gen_optimize_partition_by_ok
